@@ -5,6 +5,10 @@ ROOT = os.path.dirname(os.path.dirname(os.path.abspath(__file__)))
 
 PROOF = "proof"
 CLAIMS = {
+ "C08": {
+  "text": "Theorems (Props/C08.v, closed under the global context): for EVERY finite history of full builds, incremental builds, removals and non-compiling texts, every rule name/salience/description/body and every Go map-iteration order, the model container keeps the invariant (unique names, SortRules a duplicate-free permutation of the installed rules in non-increasing current salience, index map = positions) and its abstraction equals the denotation of the history; failed operations change nothing; IsExist agrees. The model (Rules/KcModel.v) is a hand transcription of builder/rule_builder.go + tool.BinarySearch (including the shadowed-mid quirk); it is tied to /repo on every run by running generated histories on the real builder and comparing the dumped container after every operation inside Coq (Rules/KcCheck.v).",
+  "note": "Trusted: Coq kernel; the hand-written model's fidelity is established only by the correspondence run (261+ histories quick, 3000+ thorough; generator and harness are python/Go); Go slices modelled as lists; rule bodies identified by the integer they return. No axioms.",
+  "technique": "Coq proof (invariant + refinement by induction over histories) + model/implementation correspondence evaluated by vm_compute inside Coq"},
 }
 PENDING = "check not built yet in this session (design in DESIGN.md section 5); will be claimed when its model, theorems and correspondence run exist"
 ALL = ["C%02d" % i for i in range(1, 21)]
